@@ -58,6 +58,8 @@ def _conc_row(row, matrix, matrix_objectives, matrix_weights):
 
 def concordance(matrix, objectives, weights):
     """Calculate the concordance matrix."""
+    # differences of unsigned or narrow integers would wrap around
+    matrix = np.asarray(matrix, dtype=float)
     matrix_len = len(matrix)
 
     matrix_objectives = np.tile(objectives, (matrix_len, 1))
@@ -90,6 +92,8 @@ def _disc_row(row, mtx, matrix_objectives, max_range):
 
 def discordance(matrix, objectives):
     """Calculate the discordance matrix."""
+    # differences of unsigned or narrow integers would wrap around
+    matrix = np.asarray(matrix, dtype=float)
     matrix_len = len(matrix)
 
     matrix_objectives = np.tile(objectives, (matrix_len, 1))
